@@ -18,6 +18,7 @@ TParse == /\ Ev.e = "parse" /\ ~Ev.panic
           /\ Ev.ok => ~Ev.modelnil
           /\ Ev.blank => ~Ev.ok
           /\ Ev.ms <= Ev.budget_ms
+          /\ Ev.unrepresentable => ~Ev.ok      \* a number no type can hold is an error, not a model with a hole
 TNext == l <= Len(TraceLog) /\ (TGate \/ TParse) /\ l' = l + 1
 TSpec == TInit /\ [][TNext]_l
 HW == TLCSet(1, IF l > TLCGet(1) THEN l ELSE TLCGet(1))
